@@ -15,14 +15,22 @@
        instance: a fixed-width INTEGER field written with any tag reads back
        as the value (C04_integer_field);
      - leaves: every fixed-width integer type, BOOLEAN, NULL round-trip.
-   PARTIAL: a single theorem quantified over a schema datatype (records of
-   records of typed fields, OPTIONAL/CHOICE at the typed level) is not stated;
-   records are covered field by field by the theorems above, and as a whole
-   by c04.roundtrip (random typed records through the real combinators).
-   Captured / OctetString / wrapped encoders are outside `structural`. *)
+     - records: for EVERY schema (a tree of SEQUENCE/SET/explicitly tagged
+       records, any legal tags, any nesting, leaves INTEGER of the ten widths,
+       BOOLEAN, NULL) and every value of it, encoding in a mode and decoding
+       the octets with the schema's typed readers in the same mode - or DER
+       output in BER mode - yields the value, consumes exactly the octets and
+       leaves the context unchanged, at any position and under any limit
+       (C04_schema_roundtrip_in_context), hence for a whole input
+       (C04_schema_roundtrip).
+   PARTIAL: OPTIONAL/CHOICE fields and the string/OID leaves are not in the
+   schema datatype; they are covered by the leaf theorems, by
+   C04_typed_field_read, and as a whole by c04.roundtrip (random typed records
+   through the real combinators).  Captured / OctetString / wrapped encoders
+   are outside `structural`. *)
 Require Import BV.Model.Base BV.Model.SrcB BV.Model.Twos BV.Model.Int.
 Require Import BV.Model.Length BV.Model.Tag BV.Model.Content BV.Model.Encode BV.Model.Prog.
-Require Import BV.Proofs.SrcBP BV.Proofs.IntP BV.Proofs.IntEncP BV.Proofs.WinP BV.Proofs.GrammarP BV.Proofs.EncGrammarP BV.Proofs.TypedP.
+Require Import BV.Proofs.SrcBP BV.Proofs.IntP BV.Proofs.IntEncP BV.Proofs.WinP BV.Proofs.GrammarP BV.Proofs.EncGrammarP BV.Proofs.TypedP BV.Proofs.SchemaP.
 
 Theorem C04_encoders_write_the_grammar : forall e m d,
   structural e -> enc_write m e = Ok d -> encs m (tlvs_of e) d.
@@ -70,6 +78,27 @@ Proof. exact bool_roundtrip. Qed.
 Theorem C04_null_roundtrip : prim_decode to_null [] = Ok tt.
 Proof. exact null_roundtrip. Qed.
 
+(* records of records of typed fields *)
+Theorem C04_schema_roundtrip_in_context : forall s v e m d,
+  schema_ok s -> enc_s s v = Some e -> enc_write m e = Ok d ->
+  1 <= len d /\
+  forall fuel c rest l, (sdepth s <= fuel)%nat -> reads m (cmd c) -> octets_ok (d ++ rest) = true ->
+    lim_ge l (len d) -> ctx_ok c l ->
+    dec_s fuel s c (mkSrc (d ++ rest) l None) = (Ok (v, c), mkSrc rest (lim_sub l (len d)) None).
+Proof. exact schema_roundtrip. Qed.
+
+Theorem C04_schema_roundtrip : forall s v e m m' d,
+  schema_ok s -> enc_s s v = Some e -> enc_write m e = Ok d -> octets_ok d = true ->
+  m' = m \/ (m = Der /\ m' = Ber) ->
+  decode_src m' (dec_s (sdepth s) s) (pure_src d None) = (Ok v, pure_src [] None).
+Proof. exact schema_roundtrip_top. Qed.
+
+Example C04_schema_ex :
+  let s := SSeq T_SEQUENCE [SLeaf T_INTEGER (LInt 2); SSeq T_SET [SLeaf T_BOOLEAN LBool; SLeaf T_NULL LNull]] in
+  let v := VSeq [VInt (-300); VSeq [VBool true; VNull]] in
+  schema_ok s /\ exists e, enc_s s v = Some e /\ enc_write Der e = Ok [48; 11; 2; 2; 254; 212; 49; 5; 1; 1; 255; 5; 0].
+Proof. exact schema_example. Qed.
+
 Example C04_ex : enc_int 3 (-129)%Z = [255; 127] /\ enc_int 9 (2^64)%Z = [1;0;0;0;0;0;0;0;0].
 Proof. split; vm_compute; reflexivity. Qed.
 
@@ -82,3 +111,5 @@ Print Assumptions C04_integer_roundtrip.
 Print Assumptions C04_integer_encoding_minimal.
 Print Assumptions C04_boolean_roundtrip.
 Print Assumptions C04_null_roundtrip.
+Print Assumptions C04_schema_roundtrip_in_context.
+Print Assumptions C04_schema_roundtrip.
